@@ -2,7 +2,7 @@
 HOOK_COMMITS = ["400b3e9"]
 ENGINES = [
     dict(name="driver", path="vf/driver.py", serves_properties=[], kind_free_text="builds targets against /repo's current tree, runs shards on 16 cores, merges reports, known-findings logic, evidence writer"),
-    dict(name="corpus+slots", path="vf/gen.py harness/engine.hpp harness/corpus_main.hpp model/peg_model.hpp", serves_properties=["C01", "C02", "C04", "C05", "C06", "C08", "C09", "C12"], kind_free_text="generate-compile-run grammar corpus and slot shapes, observer control with match() wrapper, reference PEG model, rapidcheck scripts"),
+    dict(name="corpus+slots", path="vf/gen.py harness/engine.hpp harness/corpus_main.hpp model/peg_model.hpp", serves_properties=["C01", "C02", "C04", "C05", "C06", "C08", "C09", "C12", "C13"], kind_free_text="generate-compile-run grammar corpus and slot shapes, observer control with match() wrapper, reference PEG model, rapidcheck scripts"),
     dict(name="bounds sweep + libFuzzer", path="targets/c03_bounds.cpp", serves_properties=["C03"], kind_free_text="one source built as ASan boundary sweep and as libFuzzer target; rule table of 79 rules x 4 input classes; window-hook and metamorphic oracle inside the target"),
     dict(name="zoo", path="targets/c02_zoo.cpp", serves_properties=["C02", "C03", "C06"], kind_free_text="rule zoo: every hand-written match() rule in rewinding contexts on exhaustive short inputs, invariants from the observer control"),
     dict(name="enumerators+rapidcheck", path="targets/", serves_properties=["C10", "C14", "C15", "C16", "C17", "C18", "C19", "C20"], kind_free_text="total enumeration of finite spaces plus rapidcheck generators, explicit independent oracles"),
@@ -70,6 +70,12 @@ CLAIMS = {
         technique="generated grammars x generated selectors/transformers; returned parse tree compared structurally with the reference model's derivation tree; exhaustive short inputs + rapidcheck slot scripts",
         text="Exploration: for random grammars (recursive named rules, convenience rules, try_catch absorbing must failures and throwing actions), chains of 6..11 unselected wrappers above a selected rule under backtracking/look-ahead, and all combinators over adversarial slots, parse_tree::parse is run with store_all, a random subset selector and a random mix of remove_content/fold_one/discard_empty; a tree must be returned iff the model says success and must equal the model's surviving derivation of the selected rule types with the documented transformers applied (types, spans, content flags, order, nesting).",
         design_ref="DESIGN.md section 2 C12",
+        note=CORPUS_NOTE),
+    "C13": dict(
+        engine="corpus+slots",
+        technique="scope oracle evaluated on the dynamic stack of rule attempts (every attempt's action family, control, apply mode and state instance vs the innermost enclosing switch from a static table) + state life-cycle protocol; generated grammars with all switch kinds, slots, exhaustive short inputs",
+        text="Exploration: random grammars with state<>/action<>/control<>/enable<>/disable<> rules and attached change_action / change_state(s) / change_action_and_state / change_control / enable_action / disable_action switches in two action families, and the same scopes around adversarial slots under sor/star/at/try_catch; for every rule attempt and every action call the context actually used is compared with the context its innermost enclosing scope prescribes, and each state instance must be constructed once at the attempt's start from the outer state, get success exactly once with the right cursor/outer state iff the attempt matched (and actions enabled for the action-based variants), and be destroyed before the attempt is left.",
+        design_ref="DESIGN.md section 2 C13",
         note=CORPUS_NOTE),
     "C14": dict(
         engine="enumerators+rapidcheck",
